@@ -8,7 +8,7 @@ THEOREMS = ['Slice.normBound_spec', 'Slice.slice_cells', 'Slice.slice_length', '
 BUDGET = {'quick': 2500, 'thorough': 20000}
 TIME_LIMIT = {'quick': 50, 'thorough': 800}
 RULE = ('random shapes up to 4-d (extents 1-6), every axis with N+1 edges or N centres, start/stop in {None} U [-n-2, n+2], '
-        'slice then squeeze; thorough additionally enumerates ALL shapes with extents <= 3 and ndim <= 3 (1-d: extents <= 6) x '
+        'bounds given as Python or numpy integers, 6% of the cases with an axis of 257-1000 cells, slice then squeeze; thorough additionally enumerates ALL shapes with extents <= 3 and ndim <= 3 (1-d: extents <= 6) x '
         'all bins kinds x all such slices; non-trivial = non-empty proper selection or a negative bound; distinct = case hash')
 CORRESPONDS = 'Model/Slice.lean (getItem, binsItem/binsSlice, sliceND, squeeze) vs Dataset.__getitem__/squeeze'
 TRUSTED = ['harness/props/c09.py (generator, range()-based oracle)', 'vjdriver (compiled Model/Slice.lean)',
